@@ -30,7 +30,7 @@ ASSUMPTIONS = ['what a child process sees is observed with probe programs (sh+en
                'own directory does not change the parent is an operating system fact, observed only',
                'the timeout in force is observed as the value handed to the command executor, not by letting processes '
                'time out (that is C19)',
-               'values are constant strings; values taken from program output or files are outside the model',
+               'values are constant strings, or the output of a program printing a constant string; values taken from files / here-documents are outside the model',
                'the variable PWD, which dash exports by itself, is removed from what shell probes report',
                'the program computing the value of `env NAME = -stdout-from PROGRAM` is observed as a process too: the timeout handed '
                'to it and its current directory are judged; its ENVIRONMENT (documented: that of the set being changed) is not judged '
